@@ -15,6 +15,8 @@ use rand_core::SeedableRng;
 pub type F<G> = <G as AffineRepr>::ScalarField;
 
 pub struct Env<G: AffineRepr> {
+    /// a point outside the prime-order subgroup, when the curve has a cofactor
+    pub torsion: Option<G>,
     pub curve: &'static str,
     pub pc: PedersenGens<G>,
     pub bp: BulletproofGens<G>,
@@ -29,13 +31,13 @@ impl<G: AffineRepr> Env<G> {
         let bp = BulletproofGens::<G>::new(cap, 1);
         let gs: Vec<G> = bp.G(cap, 1).cloned().collect();
         let hs: Vec<G> = bp.H(cap, 1).cloned().collect();
-        Env { curve, pc, bp, gs, hs, cap }
+        Env { torsion: crate::corpus::torsion_point::<G>(), curve, pc, bp, gs, hs, cap }
     }
     pub fn gens(&self) -> Gens<'_, G> {
-        Gens { B: self.pc.B, Bb: self.pc.B_blinding, gs: &self.gs, hs: &self.hs }
+        Gens { B: self.pc.B, Bb: self.pc.B_blinding, gs: &self.gs, hs: &self.hs, v_off: None }
     }
     pub fn gens_with<'a>(&'a self, pc: &PedersenGens<G>) -> Gens<'a, G> {
-        Gens { B: pc.B, Bb: pc.B_blinding, gs: &self.gs, hs: &self.hs }
+        Gens { B: pc.B, Bb: pc.B_blinding, gs: &self.gs, hs: &self.hs, v_off: None }
     }
     pub fn bp_of(&self, cap: usize) -> BulletproofGens<G> {
         BulletproofGens::<G>::new(cap, 1)
@@ -143,6 +145,18 @@ pub fn batch_rng<G: AffineRepr>(
     bp: &BulletproofGens<G>,
     rng_seed: u64,
 ) -> (Result<(), R1CSError>, crate::rngs::RecordingRng<ChaChaRng>) {
+    batch_rng_mode::<G>(env, items, bp, rng_seed, 0)
+}
+
+/// `mode` selects how the instances are handed to `batch_verify`: 0 = a Vec (exact size hint),
+/// 1 = a filtered iterator (size-hint lower bound 0), 2 = first instance exact, the rest filtered.
+pub fn batch_rng_mode<G: AffineRepr>(
+    env: &Env<G>,
+    items: &[(&Program, &[G], &R1CSProof<G>)],
+    bp: &BulletproofGens<G>,
+    rng_seed: u64,
+    mode: u8,
+) -> (Result<(), R1CSError>, crate::rngs::RecordingRng<ChaChaRng>) {
     use crate::interp::cur::{build_verifier, new_transcript};
     let mut rng = crate::rngs::RecordingRng::new(ChaChaRng::seed_from_u64(rng_seed));
     let mut trs: Vec<merlin::Transcript> = items.iter().map(|(p, _, _)| new_transcript(p)).collect();
@@ -154,6 +168,14 @@ pub fn batch_rng<G: AffineRepr>(
             Err(e) => return (Err(e), rng),
         }
     }
-    let r = ark_bulletproofs::r1cs::batch_verify(&mut rng, insts, &env.pc, bp);
+    let r = match mode {
+        0 => ark_bulletproofs::r1cs::batch_verify(&mut rng, insts, &env.pc, bp),
+        1 => ark_bulletproofs::r1cs::batch_verify(&mut rng, insts.into_iter().filter(|_| true), &env.pc, bp),
+        _ => {
+            let mut it = insts.into_iter();
+            let first: Vec<_> = it.by_ref().take(1).collect();
+            ark_bulletproofs::r1cs::batch_verify(&mut rng, first.into_iter().chain(it.filter(|_| true)), &env.pc, bp)
+        }
+    };
     (r, rng)
 }
